@@ -415,9 +415,21 @@ def norm_check(ex, cond, val, F):
     """normalise one (condition, edge taken on the accepting path) to a check record"""
     t = truth(val)
     c = cond
-    while c[0] == 'un' and c[1] == 'Not':
-        c = c[2]
-        t = not t
+    while True:
+        if c[0] == 'un' and c[1] == 'Not':
+            c = c[2]
+            t = not t
+            continue
+        # `x == false`, `x != true`, `true == x`, ... are spellings of `!x` / `x`
+        if c[0] == 'bin' and c[1] in ('Eq', 'Ne') and any(o[0] == 'const' and o[1] == 'bool' and o[2] is not None for o in (c[2], c[3])):
+            k, x = (c[2], c[3]) if (c[2][0] == 'const' and c[2][1] == 'bool') else (c[3], c[2])
+            if x[0] == 'const':
+                break
+            same = bool(const_value(k)) == (c[1] == 'Eq')
+            c = x
+            t = t if same else not t
+            continue
+        break
     if c[0] == 'bin' and c[1] in OPSET:
         a, b = c[2], c[3]
         ma, mb = measure_kind(ex, a, F), measure_kind(ex, b, F)
